@@ -730,6 +730,10 @@ def main():
                 raise
             status[fname] = str(e)
     import json
+    import py2v_surface
+    for fname, why in py2v_surface.check(repo).items():
+        if status.get(fname) == "translated":
+            status[fname] = why
     with open(os.path.join(outdir, "status.json"), "w") as fh:
         json.dump(status, fh, indent=1)
     for k, v in status.items():
